@@ -66,3 +66,58 @@ pub fn disarm() -> (u64, u64) {
     ARMED.store(0, Ordering::Relaxed);
     (COUNT.load(Ordering::Relaxed), LAST_SIZE.load(Ordering::Relaxed))
 }
+
+// ---------------------------------------------------------------------------------------------
+// The environment seam: this executable defines `getenv`, so every lookup made by std (and by
+// the crate under test through std::env) resolves here. Unarmed it behaves like libc's. Armed
+// (around a parse call, in a share of the runs) EVERY variable is reported as set to "1" and the
+// lookup is counted: a parse entry point that consults the process environment then takes the
+// path it would take on a machine where that variable happens to be set.
+
+use std::os::raw::c_char;
+static ENV_ARMED: AtomicU8 = AtomicU8::new(0);
+static ENV_LOOKUPS: AtomicU64 = AtomicU64::new(0);
+static ONE: [u8; 2] = *b"1\0";
+
+extern "C" {
+    static environ: *const *const c_char;
+}
+
+/// # Safety
+/// `name` must be a NUL-terminated string (libc contract).
+#[no_mangle]
+pub unsafe extern "C" fn getenv(name: *const c_char) -> *mut c_char {
+    if ENV_ARMED.load(Ordering::Relaxed) != 0 {
+        ENV_LOOKUPS.fetch_add(1, Ordering::Relaxed);
+        return ONE.as_ptr() as *mut c_char;
+    }
+    if name.is_null() || environ.is_null() {
+        return std::ptr::null_mut();
+    }
+    let mut n = 0usize;
+    while *name.add(n) != 0 {
+        n += 1;
+    }
+    let mut e = environ;
+    while !(*e).is_null() {
+        let entry = *e;
+        let mut i = 0usize;
+        while i < n && *entry.add(i) == *name.add(i) && *entry.add(i) != 0 {
+            i += 1;
+        }
+        if i == n && *entry.add(n) == b'=' as c_char {
+            return entry.add(n + 1) as *mut c_char;
+        }
+        e = e.add(1);
+    }
+    std::ptr::null_mut()
+}
+
+pub fn arm_env(on: bool) {
+    ENV_LOOKUPS.store(0, Ordering::Relaxed);
+    ENV_ARMED.store(on as u8, Ordering::Relaxed);
+}
+pub fn disarm_env() -> u64 {
+    ENV_ARMED.store(0, Ordering::Relaxed);
+    ENV_LOOKUPS.load(Ordering::Relaxed)
+}
